@@ -643,6 +643,30 @@ func c11FuncCases(r *Run, id *int) []c11Case {
 			cases = append(cases, c11Case{ID: *id, Family: "functions", Entry: "string", Tpl: fmt.Sprintf(form, k), Data: dn, Funcs: "hostile"})
 		}
 	}
+	// argument texts: every string up to length 3 over quotes, commas, parentheses, blanks, a letter and a digit, as the
+	// argument list of a built-in filter, of a direct call, and inside a bound attribute
+	var args []string
+	var gen func(p string, n int)
+	gen = func(p string, n int) {
+		if p != "" {
+			args = append(args, p)
+		}
+		if n == 0 {
+			return
+		}
+		for _, c := range []string{"'", "\"", ",", "(", ")", " ", "a", "1", "|", "."} {
+			gen(p+c, n-1)
+		}
+	}
+	gen("", 3)
+	for i, a := range args {
+		form := []string{`<p>{{ v | default(%s) }}</p>`, `<p>{{ default(v, %s) }}</p>`, `<p :title='v | default(%s)'>x</p>`, `<p>{{ v | upper | default(%s) | lower }}</p>`, `<p v-text="v | default(%s)">x</p>`}[i%5]
+		if strings.Contains(a, "'") && i%5 == 2 {
+			form = `<p>{{ v | default(%s) }}</p>`
+		}
+		*id++
+		cases = append(cases, c11Case{ID: *id, Family: "argument-texts", Entry: "string", Tpl: fmt.Sprintf(form, a), Data: []string{"string", "nil", "int"}[i%3]})
+	}
 	return cases
 }
 
@@ -722,7 +746,7 @@ func init() { streams["C11"] = runC11 }
 func runC11(r *Run) {
 	r.Imports = []string{"Model.Depth"}
 	r.Rule("isolated worker processes (64 MB maximum stack, address-space limit, 4 s per case): (include-graph) every include graph over 3 files with 0-2 includes per file, includes placed plainly, inside v-for and inside v-if, entered through Load.Render, Vue.Render and RenderFragment; (cycle-shapes) cycles through slot content, slot fallbacks, layouts and nested named slots; (slot-rings) up to three named slots handed to a layout, to a component, or through a layout to a component, the content of each using any other (every ring, chain and self-reference); (slot-shapes) 11 kinds of supplied slot content (text, element, <template v-html / v-if / v-for / v-text>, wrapper, include) x 6 ways a component uses the slot once, twice or three times x default / named; " +
-		"(wrong-type) 32 directive positions x 39 data values (every kind: nil pointers, typed nil, unexported fields, non-string map keys, functions, channels, panicking Stringer, deep and cyclic structs / maps / slices); (root-data) each value as the root data; (functions) panicking, nil, non-function, wrong-arity, multi-result template functions as filters and calls, and 20 parameter kinds (arrays, pointers to arrays, typed slices, maps, channels, functions, structs, interfaces, narrow numbers, variadic, context-taking) x 25 data kinds; (bytes) spliced, token-soup and random byte strings as template sources and front-matter; (many-paths) templates with 330 distinct variable paths each, more than the engine's memo of parsed paths holds; (deep-nesting) elements nested 100..140, 200, 255..257, 300, 400 and 500 deep, and a component that includes itself over a thread 90 replies deep. " +
+		"(wrong-type) 32 directive positions x 39 data values (every kind: nil pointers, typed nil, unexported fields, non-string map keys, functions, channels, panicking Stringer, deep and cyclic structs / maps / slices); (root-data) each value as the root data; (functions) panicking, nil, non-function, wrong-arity, multi-result template functions as filters and calls, and 20 parameter kinds (arrays, pointers to arrays, typed slices, maps, channels, functions, structs, interfaces, narrow numbers, variadic, context-taking) x 25 data kinds; (bytes) spliced, token-soup and random byte strings as template sources and front-matter; (many-paths) templates with 330 distinct variable paths each, more than the engine's memo of parsed paths holds; (argument-texts) every string up to length 3 over quotes, commas, parentheses, blanks, a pipe, a dot, a letter and a digit as the argument list of a built-in function, as filter, call, bound attribute and v-text; (deep-nesting) elements nested 100..140, 200, 255..257, 300, 400 and 500 deep, and a component that includes itself over a thread 90 replies deep. " +
 		"Outcome must be ok or error: a panic reaching the caller, a timeout or a dead worker is a violation")
 	id := 0
 	var cases []c11Case
